@@ -12,10 +12,19 @@
 //!       re-run one failure file (kind "mapops": replay + compare; kind "mapops-random":
 //!       re-execute the recorded actions and write a fresh trace for MapMon).
 //!   mapops --random <N> --seed <S> --out-trace <file>
-//!       N random longer runs (4-6 keys, values 0..3, 10-30 actions) on all operators and all
+//!       N random longer runs (4-6 keys, values 0..3, 10-30 actions; edits of 1-3 keys, emptying,
+//!       refilling, same map, zeroing all values, edits invisible through the chains' first stage)
+//!       on all operators (chains included) and all
 //!       map types, recorded as ndjson (one line per action) for spec/MapMon.tla.
 //!
-//! The user functions here must be the ones of spec/MapOps.tla (FmF, W, PartF, MergeF).
+//! The user functions here must be the ones of spec/MapOps.tla (FmF, W / FW, PartF, MergeF).
+//!
+//! "fold_sum" / "fold_sum_upd" are plain sums (init 0, add = acc + v, remove = acc - v, update =
+//! acc - old + new): a non-empty map can fold to init.  "chain_fm_map" / "chain_fm_fold" chain two
+//! diff-based operators, `input.incr_filter_map(f).incr_map(g)` and
+//! `input.incr_filter_map(f).incr_unordered_fold(plain sum)`: the observed node is the second
+//! stage; the calls of both stages go to one log, role "f" = first stage, "g" / "add" / "remove" =
+//! second stage.
 use std::cell::RefCell;
 use std::collections::{BTreeMap, BTreeSet};
 use std::io::{BufRead, Write};
@@ -32,15 +41,19 @@ use serde_json::{json, Value as J};
 // ---------------------------------------------------------------------------------------------
 // user functions (mirror of spec/MapOps.tla)
 
-const ALL_OPS: [&str; 11] = [
+const ALL_OPS: [&str; 15] = [
     "map", "filter_map", "mapi", "filter_mapi", "fold", "fold_rev", "fold_upd", "fold_upd_rev",
-    "merge", "partition", "partition_mapi",
+    "merge", "partition", "partition_mapi", "fold_sum", "fold_sum_upd", "chain_fm_map", "chain_fm_fold",
 ];
 const MAP_TYPES: [&str; 3] = ["btree", "rc", "ord"];
 const FOLD_INIT: i64 = 3;
 
 fn w(k: i64, v: i64) -> i64 {
     (v + 1) * 5i64.pow((k - 1) as u32)
+}
+/// first stage of the chains (FmF "chain_f")
+fn chain_f(v: i64) -> Option<i64> {
+    if v % 2 == 0 { None } else { Some(v + 10) }
 }
 fn merge_f(e: MergeElement<&i64, &i64>) -> (Vec<i64>, Option<i64>) {
     match e {
@@ -231,6 +244,78 @@ macro_rules! generic_ops {
                 int_json,
                 c,
             )),
+            "fold_sum" => Some(mk_op::<i64>(
+                vin.incr_unordered_fold(
+                    0i64,
+                    move |acc: i64, k: &i64, v: &i64| {
+                        log(&c2, "add", *k, vec![*v]);
+                        acc + *v
+                    },
+                    move |acc: i64, k: &i64, v: &i64| {
+                        log(&c3, "remove", *k, vec![*v]);
+                        acc - *v
+                    },
+                    false,
+                ),
+                int_json,
+                c,
+            )),
+            "fold_sum_upd" => Some(mk_op::<i64>(
+                vin.incr_unordered_fold_update(
+                    0i64,
+                    move |acc: i64, k: &i64, v: &i64| {
+                        log(&c2, "add", *k, vec![*v]);
+                        acc + *v
+                    },
+                    move |acc: i64, k: &i64, v: &i64| {
+                        log(&c3, "remove", *k, vec![*v]);
+                        acc - *v
+                    },
+                    move |acc: i64, k: &i64, old: &i64, new: &i64| {
+                        log(&c4, "update", *k, vec![*old, *new]);
+                        acc - *old + *new
+                    },
+                    false,
+                ),
+                int_json,
+                c,
+            )),
+            "chain_fm_map" => {
+                let mid: Incr<$Out> = vin.incr_filter_map(move |v: &i64| {
+                    log(&c2, "f", 0, vec![*v]);
+                    chain_f(*v)
+                });
+                Some(mk_op::<$Out>(
+                    mid.incr_map(move |x: &i64| {
+                        log(&c3, "g", 0, vec![*x]);
+                        *x + 100
+                    }),
+                    pairs_json::<$Out>,
+                    c,
+                ))
+            }
+            "chain_fm_fold" => {
+                let mid: Incr<$Out> = vin.incr_filter_map(move |v: &i64| {
+                    log(&c2, "f", 0, vec![*v]);
+                    chain_f(*v)
+                });
+                Some(mk_op::<i64>(
+                    mid.incr_unordered_fold(
+                        0i64,
+                        move |acc: i64, k: &i64, x: &i64| {
+                            log(&c3, "add", *k, vec![*x]);
+                            acc + *x
+                        },
+                        move |acc: i64, k: &i64, x: &i64| {
+                            log(&c4, "remove", *k, vec![*x]);
+                            acc - *x
+                        },
+                        false,
+                    ),
+                    int_json,
+                    c,
+                ))
+            }
             _ => None,
         }
     }};
@@ -729,6 +814,31 @@ fn random_actions(rng: &mut StdRng) -> Vec<J> {
                 m = (1..=nk).filter_map(|k| if rng.gen_bool(0.7) { Some((k, rng.gen_range(0..4))) } else { None }).collect(); // refill
             } else if y < 0.30 {
                 // set to the same map
+            } else if y < 0.38 {
+                // all values 0: the plain sums fold a non-empty map to their init
+                for v in m.values_mut() {
+                    *v = 0;
+                }
+            } else if y < 0.50 {
+                // an edit that the first stage of the chains announces (non-empty diff) although its
+                // output stays equal: only keys that chain_f filters out before and after (even
+                // values) are inserted, changed or removed; the second stage runs on an empty diff
+                for _ in 0..rng.gen_range(1..=2) {
+                    let k = rng.gen_range(1..=nk);
+                    match m.get(&k).copied() {
+                        None => {
+                            m.insert(k, 2 * rng.gen_range(0..2));
+                        }
+                        Some(v) if v % 2 == 0 => {
+                            if rng.gen_bool(0.3) {
+                                m.remove(&k);
+                            } else {
+                                m.insert(k, 2 - v);
+                            }
+                        }
+                        Some(_) => {}
+                    }
+                }
             } else {
                 for _ in 0..rng.gen_range(1..=3) {
                     let k = rng.gen_range(1..=nk);
